@@ -541,6 +541,7 @@ def run(ctx, rep):
     check_foreign(ctx, rep, concrete)
     check_checkpoint_position(ctx, rep)
     check_constructor_restores(ctx, rep, concrete)
+    check_restored_precision(ctx, rep, concrete)
     check_main_order(ctx, rep)
     check_iteration_counter(ctx, rep)
     rep.rule('C17.A', "every unconditional restoring statement of a load_state_dict lies on every path to a normal exit (no early return leaves part of the state at its fresh value)")
@@ -594,6 +595,27 @@ def check_checkpoint_position(ctx, rep):
                           {'after_the_checkpoint': [norm_text(st)[:50] for st in after], 'state_changes_after': offenders},
                           f"{cls.name}.{name} writes the checkpoint and then still runs {offenders[:3]} in the same iteration: the file pairs post-step parameters with "
                           f"pre-step state of those objects, so the resumed run diverges from the uninterrupted one")
+            # the label of a checkpoint: state_dict() stores `iteration = _epoch` and load_state_dict resumes at iteration + 1, so a checkpoint may only be written while
+            # _epoch is an iteration that HAS been performed — every path from a save to the end of the run passes through the increment of the counter first
+            from sa.cfg import CFG
+            try:
+                cfg = CFG(fn)
+            except Exception:
+                continue
+            incr = [nd for nd in cfg.stmt_nodes() if isinstance(nd.stmt, ast.AugAssign) and self_attr(nd.stmt.target) == '_epoch']
+            k_save = 0
+            for nd in cfg.stmt_nodes():
+                st = nd.stmt
+                if nd.kind == 'with_exit' or not isinstance(st, ast.Expr) or not isinstance(st.value, ast.Call) or not _calls_save(ctx, cls, st.value):
+                    continue
+                if not incr:
+                    continue
+                ok = cfg.must_pass(nd, cfg.exit, incr)
+                k_save += 1
+                rep.check('C17.P', f"{cls.name}.{name}::checkpoint-labelled-with-a-completed-iteration::{norm_text(st)[:40]}#{k_save}", ok, where(cls.module, st), None,
+                          f"{cls.name}.{name}: after `{norm_text(st)[:40]}` the run can end without `_epoch += 1`: at that point _epoch names an iteration that has not been "
+                          f"performed, the file is labelled with it, and the resumed run (which continues at label + 1) never performs it — it can also overwrite the last "
+                          f"good periodic checkpoint")
     if n < 3:
         raise AnalysisError(f"only {n} run loops with a checkpoint found")
 
@@ -640,7 +662,74 @@ def check_constructor_restores(ctx, rep, classes):
                     rep.check('C17.R', f"{cls.qualname}.{rname}::{keys[0]}->{tcls.name}({p_})", ok, where(cls.module, st), {'stored_in': attrs, 'modified_by_constructor': modified},
                               f"{cls.name}.{rname} rebuilds self.{self_attr(st.targets[0])} with {tcls.name}(…, {p_}=state['{keys[0]}'], …), but {tcls.name}.__init__ does not keep that "
                               f"argument as it is ({modified[:2] or 'not stored'}): the restored accumulator differs from the saved one")
+    # an attribute that the constructor builds with configuration keywords (deque(maxlen=…), a container with a bound) and that the reader rebuilds with the same constructor
+    # must be rebuilt with those keywords: the saved content is restored but the behaviour that goes with it (the bound) would be lost
+    for cls in classes:
+        init = cls.resolve('__init__')
+        if init is None:
+            continue
+        built = {}
+        for k_ in cls.internal_mro():
+            i2 = k_.methods.get('__init__')
+            if i2 is None:
+                continue
+            for st in ast.walk(i2):
+                if isinstance(st, ast.Assign) and len(st.targets) == 1 and self_attr(st.targets[0]) and isinstance(st.value, ast.Call) and st.value.keywords \
+                        and isinstance(st.value.func, (ast.Name, ast.Attribute)):
+                    built.setdefault(self_attr(st.targets[0]), st.value)
+        for rname in ('load_state_dict', '_load_state_dict'):
+            r = cls.resolve(rname)
+            if r is None:
+                continue
+            for st in ast.walk(r[1]):
+                if isinstance(st, ast.Assign) and len(st.targets) == 1 and self_attr(st.targets[0]) in built and isinstance(st.value, ast.Call):
+                    a = self_attr(st.targets[0])
+                    c0, c1 = built[a], st.value
+                    if norm_text(c0.func) != norm_text(c1.func):
+                        continue
+                    n += 1
+                    need = {k.arg for k in c0.keywords if k.arg}
+                    have = {k.arg for k in c1.keywords if k.arg}
+                    # a positional argument of the reader may stand for a keyword of the constructor only if the constructor call was positional too: not assumed
+                    lack = sorted(need - have)
+                    rep.check('C17.R', f"{cls.qualname}.{rname}::self.{a}-rebuilt-with-its-configuration", not lack, where(r[0].module, st),
+                              {'constructor': norm_text(c0)[:70], 'reader': norm_text(c1)[:70]},
+                              f"{cls.name}.__init__ builds self.{a} as `{norm_text(c0)[:60]}` but {rname} rebuilds it as `{norm_text(c1)[:60]}`, without {lack}: the restored "
+                              f"object holds the saved content but no longer behaves like the one of the uninterrupted run (a bounded window becomes unbounded)")
     rep.analysed['constructor_restores'] = n
+
+
+def check_restored_precision(ctx, rep, classes):
+    """C17.E (reader side) — a tensor that was saved as plain numbers comes back at the precision it had: `torch.tensor(state[k])` without a dtype builds it at torch's default
+    precision, so a float32 run restarted under a float64 default (or the reverse) continues with other numbers.  The dtype must be given (dtype=…, or **info that carries it)."""
+    n = 0
+    for cls in classes:
+        for rname in ('load_state_dict', '_load_state_dict'):
+            r = cls.resolve(rname)
+            if r is None or r[0] is not cls:
+                continue
+            fn = r[1]
+            sd = fn.args.args[1].arg if len(fn.args.args) > 1 else None
+            for c in ast.walk(fn):
+                if not (isinstance(c, ast.Call) and (dotted_name(c.func) or '') in ('torch.tensor', 'torch.as_tensor', 'torch.Tensor', 'torch.FloatTensor') and c.args):
+                    continue
+                if not any(isinstance(x, ast.Name) and x.id == sd for x in ast.walk(c.args[0])):
+                    continue
+                n += 1
+                has_dtype = any(k.arg == 'dtype' for k in c.keywords)
+                star = [k.value for k in c.keywords if k.arg is None]
+                if not has_dtype and star:
+                    # **info: accepted when the dictionary is built with a 'dtype' entry in this function
+                    for sv in star:
+                        if isinstance(sv, ast.Name):
+                            for st in ast.walk(fn):
+                                if isinstance(st, ast.Assign) and any(isinstance(t, ast.Name) and t.id == sv.id for t in st.targets) and isinstance(st.value, ast.Dict) \
+                                        and any(isinstance(k, ast.Constant) and k.value == 'dtype' for k in st.value.keys):
+                                    has_dtype = True
+                rep.check('C17.E', f"{cls.qualname}.{rname}::{norm_text(c)[:50]}::restored-at-its-own-precision", has_dtype, where(cls.module, c), None,
+                          f"{cls.name}.{rname} rebuilds a saved tensor with `{norm_text(c)[:60]}` — no dtype: it comes back at torch's default precision, not at the precision of the run "
+                          f"that wrote it (a float32 model restarted under --dtype float64 continues in float64)")
+    rep.analysed['tensor_rebuilds_in_readers'] = n
 
 
 def check_main_order(ctx, rep):
